@@ -360,6 +360,11 @@ func runC03(c *Check, a *Analysis) {
 
 	// ---- R-SERVER-CLOSE
 	ruleServerClose(c, a, "R-SERVER-CLOSE")
+	ruleLockBalance(c, a, "R-LOCK-BALANCE", "Conn.mutex", "stream.mut", "Server.mut", "Server.mutex")
+	ruleReaderTotal(c, a, "R-READER-TOTAL")
+	ruleEOFMapping(c, a, "R-EOF-MAP")
+	ruleNoCloseUnderLock(c, a, "R-NO-CLOSE-UNDER-LOCK")
+	ruleAPIWrites(c, a, "R-API-WRITES")
 	// the sweep's stop() must actually wake stream readers (no lost wake-up)
 	ruleStop(c, a, "R-STOP")
 }
